@@ -84,6 +84,25 @@ add("C09", "genrun", "generated worlds + corpus + a sweep of every adversarial n
     "76 builds per quick run (14 corpus files, 26 generated worlds, 9 name-sweep worlds covering ~200 keywords/prelude names/temporaries as function, parameter, record, field, case and interface names, 27 witnesses of listed findings and fixed defects), 720 per thorough run. Oracle: rustc succeeds, the component validates, it exports exactly the world's exports with identical function types, imports a subset, and every core export is assigned to an item of the world.",
     "std is not available for wasm32 in this sandbox (no dlmalloc source), so the HashMap map type is not built and a bump allocator/panic handler are supplied; stub bodies call no imports, so imports are a subset check. 14 root causes are listed as known findings and excluded by construction (see known-findings.txt); 13 further defects found by this check are fixed in /repo.")
 
+add('C18', "asyncsim", 'stateful scenarios (guest programs x host schedules, proptest-shrunk) against a mock component-model host; host-side registration invariants',
+    '300k scenarios per flavour per quick run with streams, futures and async imports in one or two tasks, operations awaited / cancelled / dropped after one poll with host completions queued in between, operations started by one task and completed by another, EVENT_CANCEL at generated points; oracle: no cancel/drop while joined, no event for an unregistered waitable (runtime panics), nothing joined, no set, handle, heap block or list buffer alive once every task and value is gone.',
+    "The canonical built-ins are provided by a mock host written from the component-model async definitions (native, 64-bit) through the verif hook in extern_wasm!; traps are recorded as violations. Two runtime flavours are run by every check: without `async-spawn` (the task's own waker reaches guest futures; evidence/<ID>-nospawn.json) and with all features. Scenarios run one at a time (the runtime has process-wide state). A process abort (panic inside an extern C callback) is caught by a SIGABRT handler that saves the scenario and reports the violation.")
+add('C19', "asyncsim", 'stateful scenarios against a mock host with an item ledger; per-operation differential oracle',
+    '300k scenarios per flavour: write / write_all / write_one / read / next / collect / futures::Stream adapter on streams with canonical (u8) and lifted payloads (each lowered value owns a simulated list buffer), host peers that take/give partial amounts, drop, and race completion with cancellation; oracle: the values and counts every operation reports equal what the host transferred, in order; untransferred values come back; every list buffer is released exactly once; no leak.',
+    "The canonical built-ins are provided by a mock host written from the component-model async definitions (native, 64-bit) through the verif hook in extern_wasm!; traps are recorded as violations. Two runtime flavours are run by every check: without `async-spawn` (the task's own waker reaches guest futures; evidence/<ID>-nospawn.json) and with all features. Scenarios run one at a time (the runtime has process-wide state). A process abort (panic inside an extern C callback) is caught by a SIGABRT handler that saves the scenario and reports the violation.")
+add('C20', "asyncsim", 'stateful scenarios against a mock host; outcome-differential oracle on future write/read/cancel/drop',
+    "300k scenarios per flavour over future creation, write, read, cancel and drop of either end or of in-flight operations with host-chosen rendezvous order, reader drops and cancel/complete races, payloads with and without heap data; oracle: exactly one value (the written one or the default) reaches a live reader, the writable end is never dropped first, cancel outcomes equal the host's.",
+    "The canonical built-ins are provided by a mock host written from the component-model async definitions (native, 64-bit) through the verif hook in extern_wasm!; traps are recorded as violations. Two runtime flavours are run by every check: without `async-spawn` (the task's own waker reaches guest futures; evidence/<ID>-nospawn.json) and with all features. Scenarios run one at a time (the runtime has process-wide state). A process abort (panic inside an extern C callback) is caught by a SIGABRT handler that saves the scenario and reports the violation.")
+add('C21', "asyncsim", 'stateful scenarios with an instrumented Subtask implementation against a mock subtask table',
+    '300k scenarios per flavour: async import calls that return STARTING / STARTED / RETURNED at once, progress driven by the host schedule, awaited or dropped after one poll with a status update queued in between, cancelled tasks; oracle: parameters are alive when the callee starts, params_dealloc_lists xor params_dealloc_lists_and_own run exactly once according to the final status, results lifted once, subtask.drop exactly once and only when resolved, subtask.cancel only while in progress.',
+    "The canonical built-ins are provided by a mock host written from the component-model async definitions (native, 64-bit) through the verif hook in extern_wasm!; traps are recorded as violations. Two runtime flavours are run by every check: without `async-spawn` (the task's own waker reaches guest futures; evidence/<ID>-nospawn.json) and with all features. Scenarios run one at a time (the runtime has process-wide state). A process abort (panic inside an extern C callback) is caught by a SIGABRT handler that saves the scenario and reports the violation.")
+add('C22', "asyncsim", 'stateful scenarios over task bodies (spawn, join, yield, sleep, imports, streams, futures) x event sequences x {start_task/callback, block_on}',
+    "300k scenarios per flavour; oracle on every callback return: EXIT only with nothing joined (voluntary exits), WAIT only on the task's own live non-empty set with the task state stored in the context slot, context slot empty while a callback runs and after exit, EVENT_CANCEL answered with EXIT, the root future's destructor guard runs exactly once, no leak afterwards.",
+    "The canonical built-ins are provided by a mock host written from the component-model async definitions (native, 64-bit) through the verif hook in extern_wasm!; traps are recorded as violations. Two runtime flavours are run by every check: without `async-spawn` (the task's own waker reaches guest futures; evidence/<ID>-nospawn.json) and with all features. Scenarios run one at a time (the runtime has process-wide state). A process abort (panic inside an extern C callback) is caught by a SIGABRT handler that saves the scenario and reports the violation.")
+add('C23', "asyncsim", 'stateful two-task scenarios built around sleep/wake pairs; unit-stream log of the mock host',
+    '300k scenarios per flavour: one task sleeps on a Rust-level event, another wakes it once or several times, before, while or after it sleeps, with cancellation of either task; oracle: wake of a sleeping task writes exactly one unit item that completes the pending wakeup read (the runtime asserts COMPLETED(1)); the wakeup read is never cancelled while joined, never left in flight when its end is dropped; the sleeper finishes its program.',
+    "The canonical built-ins are provided by a mock host written from the component-model async definitions (native, 64-bit) through the verif hook in extern_wasm!; traps are recorded as violations. Two runtime flavours are run by every check: without `async-spawn` (the task's own waker reaches guest futures; evidence/<ID>-nospawn.json) and with all features. Scenarios run one at a time (the runtime has process-wide state). A process abort (panic inside an extern C callback) is caught by a SIGABRT handler that saves the scenario and reports the violation.")
+
 PENDING_REASON = "check not built yet in this session (planned in DESIGN.md §4); not claimed until it exists and passes its sensitivity runs"
 
 def main():
@@ -137,6 +156,7 @@ HOOK_COMMITS = ["b827c12", "a6f2383"]
 ENGINES = [
     {"name": "genrun", "path": "harness/genrun", "serves_properties": ["C09", "C12", "C13", "C15", "C16", "C17", "C28", "C29", "C30", "C31", "C32", "C33"], "kind_free_text": "tape-driven constructive WIT world generator (harness/witgen) + in-process drivers for all eight generators with panic capture and output collection"},
     {"name": "abisim", "path": "harness/abisim", "serves_properties": ["C01", "C02", "C03", "C04"], "kind_free_text": "recording wit_bindgen_core::abi::Bindgen + instruction interpreter + independent reference canonical ABI (harness/refabi), driven by proptest"},
+    {"name": "asyncsim", "path": "harness/asyncsim", "serves_properties": ["C18", "C19", "C20", "C21", "C22", "C23"], "kind_free_text": "the real Rust async guest runtime executed natively (verif hook) against a mock component-model async host; guest programs + host schedules generated by proptest; second flavour harness/asyncsim-nospawn built from the same sources without async-spawn"},
     {"name": "rtpbt", "path": "harness/rtpbt", "serves_properties": ["C24"], "kind_free_text": "proptest histories against wit_bindgen::rt allocation entry points with a tracking global allocator"},
     {"name": "corepbt", "path": "harness/corepbt", "serves_properties": ["C17", "C25", "C26", "C27", "C28", "C34"], "kind_free_text": "proptest harnesses over public items of wit-bindgen-core / wit-bindgen rt / wit-bindgen-test"},
 ]
